@@ -156,10 +156,28 @@ Definition start_positive_ack_procedure_s : SM unit :=
   setq (fun q => q <| q_ack_timer := Some (n, r_ack_ms r) |> <| q_ack_counter := 0 |>).
 
 (* _handle_eof_sent *)
+(* _notice_of_completion (source.py); defined here because the cancelled unacknowledged transaction ends through it *)
+Definition notice_of_completion_s : SM unit :=
+  l <- gets s_cfg ;;
+  when (l_ind_fin l)
+    (t <- stid_or_assert ;;
+     f <- gq q_fin ;;
+     let '(cond, deliv, fstatus, fl) := match f with Some x => x | None => (C_NO_ERROR, DATA_COMPLETE, FS_UNREPORTED, None) end in
+     setq (fun q => q <| q_fin := Some (cond, deliv, fstatus, fl) |>) ;;;
+     semit (EvFinished (fst t) (snd t) cond deliv fstatus fl)) ;;;
+  sreset_internal false.
+
 Definition handle_eof_sent (cancel_eof : bool) : SM unit :=
   ac <- smode_is ACKED ;;
   if ac then start_positive_ack_procedure_s else
-  if cancel_eof then sreset_internal false else
+  if cancel_eof then
+    (* unacknowledged mode: the transaction ends with the EOF (cancel) PDU; the user is told (F21 repair) *)
+    (ce <- gq q_cond_eof ;;
+     match ce with
+     | None => raise E_ASSERT
+     | Some c => setq (fun q => q <| q_fin := Some (c, DATA_INCOMPLETE, FS_UNREPORTED, None) |>) ;;; notice_of_completion_s
+     end)
+  else
   cl <- gq q_closure ;;
   if cl then
     _ <- srcfg_or_assert ;;
@@ -349,6 +367,7 @@ Definition handle_waiting_for_ack (pkt : option pdu) : SM unit :=
   if rt then ret tt else
   match pkt with
   | Some (PAck _ acked _ _) => when (acked =? D_EOF) (sset_step SS_WAITING_FOR_FINISHED)
+  | Some (PFinished _ _ _ _ _) => sset_step SS_WAITING_FOR_FINISHED   (* handled by the next step of the same call (F30 repair) *)
   | Some (PFileData _ _ _) => raise E_TYPE                      (* to_ack_pdu() on a File Data PDU *)
   | _ => handle_positive_ack_procedures_s
   end.
@@ -376,16 +395,6 @@ Definition handle_wait_for_finish (pkt : option pdu) : SM unit :=
   end.
 
 (* _notice_of_completion *)
-Definition notice_of_completion_s : SM unit :=
-  l <- gets s_cfg ;;
-  when (l_ind_fin l)
-    (t <- stid_or_assert ;;
-     f <- gq q_fin ;;
-     let '(cond, deliv, fstatus, fl) := match f with Some x => x | None => (C_NO_ERROR, DATA_COMPLETE, FS_UNREPORTED, None) end in
-     setq (fun q => q <| q_fin := Some (cond, deliv, fstatus, fl) |>) ;;;
-     semit (EvFinished (fst t) (snd t) cond deliv fstatus fl)) ;;;
-  sreset_internal false.
-
 (* _fsm_advancement_after_packets_were_sent (source.py:811-823) *)
 Definition fsm_advancement_s : SM unit :=
   s <- get ;;
@@ -449,7 +458,8 @@ Definition check_inserted_packet_s (p : pdu) : SM unit :=
       if existsb (Z.eqb d) source_invalid_directives then raise E_INVALID_PDU_FOR_SOURCE else
       if (sc_mode (q_conf q) =? UNACKED) && ((d =? D_KEEP_ALIVE) || (d =? D_NAK)) then raise E_PDU_IGNORED_SOURCE else
       if negb (d =? D_NAK) then
-        if (s_step s =? SS_WAITING_FOR_EOF_ACK) && negb (d =? D_ACK) then raise E_PDU_IGNORED_SOURCE
+        (* a Finished PDU implies the (lost) ACK of the EOF: accepted while waiting for that ACK (F30 repair) *)
+        if (s_step s =? SS_WAITING_FOR_EOF_ACK) && negb ((d =? D_ACK) || (d =? D_FINISHED)) then raise E_PDU_IGNORED_SOURCE
         else if (s_step s =? SS_WAITING_FOR_FINISHED) && negb (d =? D_FINISHED) then raise E_PDU_IGNORED_SOURCE
         else ret tt
       else ret tt
